@@ -3,7 +3,7 @@ CONSTANTS
   Parsers = {"A", "B"}
   Buffers <- MCBuffers
   AllowedSets <- MCAllowedSets
-  MaxCalls = 4
+  MaxCalls = 3
   Devs = {}
   Depth2 = TRUE
 VIEW MCView
